@@ -8,7 +8,10 @@
     reference, or an h.AnonymousBundle: which parent signal feeds which flattened child port.
 
 Case language (JSON), see harness/vp/c10.py:
-  defs   : [ {name, style, rstyle, roles:[names], sigs:[{n,w,k,src,dest}], subs:[{n,cf,fc,role,d}]} ]   (d < own index)
+  defs   : [ {name, style, rstyle, roles:[names], sigs:[{n,w,k,src,dest}], subs:[{n,cf,fc,role,d}], ops?} ]   (d < own index)
+           ops (optional) = the construction HISTORY: [{t:"sig",via?,n,w,k,src,dest} | {t:"sub",via?,n,cf,fc,role,d} | {t:"junk",via?,n}]
+           in order, names may be re-used (via = "add" | "addn" | "set" for procedural styles); sigs/subs are then the harness's
+           reading of the FINAL members and are not used to build anything
   top    : index of the definition instantiated in the module under test
   child  : {n, port, cf, fc, role, extra:[signal names]}
   probe  : bool
@@ -61,8 +64,10 @@ def make_roleset(d):
     raise ValueError(rstyle)
 
 
-def make_leaf(l, roles):
+def make_leaf(l, roles, name=None):
     kw = dict(width=l["w"])
+    if name is not None:
+        kw["name"] = name
     if l.get("src") is not None:
         kw["src"] = roles[l["src"]]
     if l.get("dest") is not None:
@@ -85,9 +90,11 @@ def make_leaf(l, roles):
     raise ValueError(k)
 
 
-def make_inst(bdef, spec, port=None):
+def make_inst(bdef, spec, port=None, name=None):
     """A BundleInstance of `bdef` with the flips of `spec`: constructor flag `cf` and `fc` applications of h.flipped()."""
     kw = {}
+    if name is not None:
+        kw["name"] = name
     if spec.get("cf"):
         kw["flipped"] = True
     if port:
@@ -107,6 +114,25 @@ def role_of(bdef, name):
     return bdef.roles[name]
 
 
+class _Junk:
+    """a value that is no Bundle attribute (class body: forgotten; Bundle.add / setattr: TypeError, nothing changes)"""
+
+
+def def_ops(d):
+    """The construction history of a definition: `ops` if written, otherwise the members once each, signals first."""
+    if d.get("ops") is not None:
+        return d["ops"]
+    return [dict(l, t="sig") for l in d["sigs"]] + [dict(s, t="sub") for s in d["subs"]]
+
+
+def make_member(o, roles, built, named=False):
+    if o["t"] == "sig":
+        return make_leaf(o, roles, name=o["n"] if named else None)
+    if o["t"] == "sub":
+        return make_inst(built[o["d"]], o, name=o["n"] if named else None)
+    return _Junk()
+
+
 def build_defs(defs):
     built = []
     for d in defs:
@@ -114,32 +140,39 @@ def build_defs(defs):
         style = d.get("style", "proc")
         if body_roles:
             style = "class"
+        ops = def_ops(d)
         if style == "class":
             ns = {}
             if rs is not None:
                 ns["Roles" if d.get("rcap") else "roles"] = rs
             ns.update(body_roles)
-            for l in d["sigs"]:
-                ns[l["n"]] = make_leaf(l, roles)
-            for s in d["subs"]:
-                ns[s["n"]] = make_inst(built[s["d"]], s)
+            for o in ops:                       # a class body: every assignment in order, a re-assigned name is overwritten
+                ns[o["n"]] = make_member(o, roles, built)
             b = h.bundle(type(d["name"], (), ns))
         else:
             b = h.Bundle(name=d["name"])
             if rs is not None:
                 b.roles = rs
-            for i, l in enumerate(d["sigs"]):
-                sig = make_leaf(l, roles)
-                if style == "add":
-                    b.add(sig, name=l["n"])
-                else:
-                    setattr(b, l["n"], sig)
-            for s in d["subs"]:
-                bi = make_inst(built[s["d"]], s)
-                if style == "add":
-                    b.add(bi, name=s["n"])
-                else:
-                    setattr(b, s["n"], bi)
+            for o in ops:
+                via = o.get("via") or ("add" if style == "add" else "set")
+                val = make_member(o, roles, built, named=(via == "addn"))
+                try:
+                    if via == "add":
+                        b.add(val, name=o["n"])
+                    elif via == "addn":         # the name travels on the value: Bundle.add(h.Input(name="x"))
+                        if o["t"] == "junk":
+                            val.name = o["n"]
+                        b.add(val)
+                    elif via == "set":
+                        setattr(b, o["n"], val)
+                    else:
+                        raise ValueError(via)
+                except TypeError:
+                    if o["t"] != "junk":
+                        raise
+                    continue                    # refused, the definition is as it was; the script goes on
+                if o["t"] == "junk":
+                    raise RuntimeError("a value that is no Bundle attribute was accepted as a member")
         built.append(b)
     return built
 
